@@ -40,6 +40,50 @@ use self::entry::SatPointValue;
 pub mod updater_extract; // GENERATED: real text of Updater::index_transaction_sats
 pub mod balance_extract; // GENERATED: real text of Index::encode_rune_balance
 pub mod rune_updater_extract; // GENERATED: real text of RuneUpdater::index_runes
+pub mod rune_mint_extract; // GENERATED: real text of RuneUpdater::mint (over MintUpdater below)
+
+/// SHIM for the rune-entry redb table as `mint` uses it (get -> guard.value(), insert).
+pub struct EntryTable {
+  pub rows: Vec<(entry::RuneIdValue, entry::RuneEntryValue)>,
+}
+
+pub struct EntryGuard {
+  pub v: entry::RuneEntryValue,
+}
+
+impl EntryGuard {
+  pub fn value(&self) -> entry::RuneEntryValue {
+    self.v
+  }
+}
+
+impl EntryTable {
+  pub fn get(&self, k: &entry::RuneIdValue) -> Result<Option<EntryGuard>> {
+    for (key, v) in &self.rows {
+      if key == k {
+        return Ok(Some(EntryGuard { v: *v }));
+      }
+    }
+    Ok(None)
+  }
+
+  pub fn insert(&mut self, k: &entry::RuneIdValue, v: entry::RuneEntryValue) -> Result<()> {
+    for row in self.rows.iter_mut() {
+      if row.0 == *k {
+        row.1 = v;
+        return Ok(());
+      }
+    }
+    self.rows.push((*k, v));
+    Ok(())
+  }
+}
+
+/// SHIM for the two RuneUpdater fields `mint` touches.
+pub struct MintUpdater<'a> {
+  pub height: u32,
+  pub id_to_entry: &'a mut EntryTable,
+}
 pub mod event; // real
 pub mod rune_ref; // reference written from the specification (not ord code)
 pub mod rune_shim; // SHIM: Runestone::decipher returning a planted artifact
@@ -85,6 +129,10 @@ pub struct RuneStub {
   pub unallocated: Vec<(RuneId, u128)>,
   pub mint: Option<u128>,
   pub etched: Option<(RuneId, Rune)>,
+  /// paid out by `mint` only once `create_rune_entry` has run (models "the rune minted is the
+  /// one this transaction etches": its entry exists only after the etching is recorded)
+  pub self_mint: Option<u128>,
+  pub created: bool,
 }
 
 impl RuneUpdater<'_> {
@@ -97,7 +145,7 @@ impl RuneUpdater<'_> {
   }
 
   fn mint(&mut self, _id: RuneId) -> Result<Option<Lot>> {
-    Ok(self.stub.mint.map(Lot))
+    Ok(self.stub.mint.or(if self.stub.created { self.stub.self_mint } else { None }).map(Lot))
   }
 
   fn etched(&mut self, _tx_index: u32, _tx: &Transaction, _artifact: &Artifact) -> Result<Option<(RuneId, Rune)>> {
@@ -105,6 +153,7 @@ impl RuneUpdater<'_> {
   }
 
   fn create_rune_entry(&mut self, _txid: Txid, _artifact: &Artifact, _id: RuneId, _rune: Rune) -> Result {
+    self.stub.created = true;
     Ok(())
   }
 }
